@@ -153,6 +153,27 @@ pub fn chaos_ops(
         }
     }
     link.flush(rng);
+    // a misbehaving peer: lines composed relative to what was just on the wire (wrong numbers,
+    // irregular numbering, over-long payloads, malformations), a few per run in some runs
+    let composed = *rng.pick(&[0usize, 0, 0, 1, 2, 4]);
+    for _ in 0..composed {
+        if link.out.is_empty() {
+            break;
+        }
+        let at = rng.below(link.out.len() + 1);
+        let base = link.out[..at]
+            .iter()
+            .rev()
+            .find_map(|o| match o {
+                Op::Line(l) => l.sent.as_ref().map(|s| (s.n, s.k, s.id, l.node)),
+                _ => None,
+            })
+            .unwrap_or((3, 1, Some(1), 0));
+        let mut l = LineOp::plain(base.3, composed_line(rng, (base.0, base.1, base.2)), decode.draw(rng));
+        l.conv_result = rng.ratio(1, 2);
+        l.faults.push(Fault::RewriteHeader);
+        link.out.insert(at, Op::Line(l));
+    }
     let dropped = link.stats.fired[Fault::Drop.index()] as usize;
     HIDDEN.with(|h| h.borrow_mut().extend(std::iter::repeat(Fault::Drop).take(dropped)));
     let mut ops = std::mem::take(&mut link.out);
